@@ -35,16 +35,17 @@ const (
 
 // AV is an abstract value.
 type AV struct {
-	Kind   avKind
-	Sym    int             // avSym
-	Origin ssa.Instruction // instruction that produced the symbol / non-nil value (may be nil)
-	Index  int             // result index when Origin is a call with several results
-	Alloc  *ssa.Alloc      // avAddr
-	Tuple  []AV            // avTuple
-	Const  constant.Value  // avConst
-	Fn     *ssa.Function   // avFunc (function value or closure)
-	Param  *ssa.Parameter  // set when the symbol is an entry parameter
-	Global *ssa.Global     // set when the symbol is a load of a package-level variable
+	Kind     avKind
+	Sym      int             // avSym
+	Origin   ssa.Instruction // instruction that produced the symbol / non-nil value (may be nil)
+	Index    int             // result index when Origin is a call with several results
+	Alloc    *ssa.Alloc      // avAddr
+	Tuple    []AV            // avTuple
+	Const    constant.Value  // avConst
+	Fn       *ssa.Function   // avFunc (function value or closure)
+	Param    *ssa.Parameter  // set when the symbol is an entry parameter
+	Global   *ssa.Global     // set when the symbol is a load of a package-level variable
+	CallArgs []AV            // set when the symbol is the result of a call that was not interpreted: its argument values
 }
 
 type Nilness int
@@ -814,6 +815,7 @@ func (e *pathEngine) doCall(fr *frame, st *pathState, site ssa.CallInstruction, 
 		res := make([]AV, sigResults.Len())
 		for k := range res {
 			res[k] = e.fresh(site, k)
+			res[k].CallArgs = args
 			if e.cfg.ResultHint != nil && calleeObj != nil {
 				switch e.cfg.ResultHint(calleeObj, k) {
 				case IsNonNil:
